@@ -161,6 +161,23 @@ def case(ctx, rng, idx):
                     return
         except KeyError:
             m = T()
+    elif rng.random() < 0.15:
+        # the model is born as a variable object (create_var, boolean_var / spin_var: a one-term model carrying its name), then
+        # grown in place like any other model -- its bookkeeping has to be in order from the first moment
+        l0_ = labs[0]
+        how_ = "create_var"
+        if pc and rng.random() < 0.5:
+            m = (L.boolean_var if kind == "bool" else L.spin_var)(l0_)
+            how_ = "boolean_var" if kind == "bool" else "spin_var"
+        else:
+            m = T.create_var(l0_)
+        hist.append([how_, l0_])
+        ctx.cat("op:born-as-a-variable-object")
+        errs0, bk0 = invariants(m, labelled)
+        if errs0:
+            ctx.violation("%s:%s" % (how_ if how_ == "create_var" else "boolean_var/spin_var", errs0[0]), "right after %s(%r): %s; bookkeeping %r" % (how_, l0_, errs0, bk0),
+                          {"type": tname, "history": hist})
+            return
     lineage = set()
     reached2 = False
     after_derive = False
